@@ -62,6 +62,8 @@ func main() {
 		os.Exit(cmdExplain(os.Args[2:]))
 	case "selftest":
 		os.Exit(cmdSelftest(os.Args[2:]))
+	case "rules":
+		os.Exit(cmdRules())
 	default:
 		fmt.Fprintln(os.Stderr, "unknown subcommand", os.Args[1])
 		os.Exit(2)
@@ -403,7 +405,7 @@ func runSeeded(id, repo, vdir string) map[string]interface{} {
 	if err != nil || len(patches) == 0 {
 		return nil
 	}
-	killed, skipped := 0, 0
+	killed, skipped, known := 0, 0, 0
 	var details []map[string]interface{}
 	for _, pf := range patches {
 		name := filepath.Base(filepath.Dir(pf))
@@ -446,14 +448,17 @@ func runSeeded(id, repo, vdir string) map[string]interface{} {
 				killed++
 				d["status"] = "reported"
 				d["rules"] = rules
+			} else if why := seedLimitation(filepath.Dir(pf)); why != "" {
+				known++
+				d["status"] = "not reported - documented limit of the static rules: " + why
 			} else {
 				d["status"] = fmt.Sprintf("NOT reported (exit %d)", cmd.ProcessState.ExitCode())
 			}
 		}()
 		details = append(details, d)
 	}
-	fmt.Printf("seeded changes of %s: %d of %d reported, %d skipped\n", id, killed, len(patches)-skipped, skipped)
-	return map[string]interface{}{"reported": killed, "of": len(patches) - skipped, "skipped": skipped, "details": details,
+	fmt.Printf("seeded changes of %s: %d of %d reported, %d skipped, %d beyond the rules (documented)\n", id, killed, len(patches)-skipped, skipped, known)
+	return map[string]interface{}{"reported": killed, "of": len(patches) - skipped, "skipped": skipped, "documented_misses": known, "details": details,
 		"note": "each /verif/seeded/<id>-*/patch.diff (a change that breaks the property, compiles and keeps the test suite green) applied to a scratch copy of the analysed tree; the property's rules must report it"}
 }
 
@@ -478,4 +483,48 @@ func copyTree(src, dst string) error {
 		}
 		return os.WriteFile(filepath.Join(dst, rel), b, 0o644)
 	})
+}
+
+// seedLimitation returns the documented reason why a seeded change is beyond the static rules (meta.json field
+// "not_detected_reason"), or "".
+func seedLimitation(dir string) string {
+	b, err := os.ReadFile(filepath.Join(dir, "meta.json"))
+	if err != nil {
+		return ""
+	}
+	var m struct {
+		Reason string `json:"not_detected_reason"`
+	}
+	if json.Unmarshal(b, &m) != nil {
+		return ""
+	}
+	return m.Reason
+}
+
+// cmdRules prints the rule registry as markdown (DESIGN.md, appendix R is generated from it).
+func cmdRules() int {
+	var ids []string
+	for id := range registry {
+		ids = append(ids, id)
+	}
+	sort.Strings(ids)
+	for _, id := range ids {
+		ps := registry[id]
+		fmt.Printf("### %s\n\n", id)
+		fmt.Printf("*Decides:* %s\n\n*Not decided:* %s\n\n", ps.Explanation, ps.NotDecided)
+		if len(ps.Variants) > 0 {
+			var vs []string
+			for _, v := range ps.Variants {
+				vs = append(vs, v.Name)
+			}
+			fmt.Printf("*Extra build variants in the thorough tier:* %s\n\n", strings.Join(vs, ", "))
+		}
+		fmt.Println("| rule | floor | what is checked |")
+		fmt.Println("|---|---|---|")
+		for _, r := range ps.Rules {
+			fmt.Printf("| %s | %d | %s |\n", r.ID, r.Floor, strings.ReplaceAll(r.Doc, "|", "/"))
+		}
+		fmt.Println()
+	}
+	return 0
 }
